@@ -1,6 +1,7 @@
-(* C03 — the discipline the code currently follows. The four fixes committed in /repo
+(* C03 — the discipline the code currently follows. The five fixes committed in /repo
    (25782e7 restore the conditional flag, c0fa7ad balanced loop_depth, f6cf806 nested writes do not kill,
-   99f0982 module-level parameters) are reflected by the four switches that are true here; as_is
+   99f0982 module-level parameters, 98267e1 a comprehension's first iterable is visited before the snapshot)
+   are reflected by the five switches that are true here; as_is
    (Collector.v) remains the discipline of the code as it was found and is only used by the `_refuted`
    lemmas that document the fixed defects. If a further fix is applied, set its switch here. *)
 From RopeVerif.C03 Require Import Flow Collector.
@@ -12,10 +13,16 @@ Definition current : switches :=
      sw_readmaybe := false;
      sw_loopall := false;
      sw_globalargs := true;    (* 99f0982 *)
-     sw_loopprew := false |}.
+     sw_loopprew := false;
+     sw_compiter := true |}.      (* 98267e1 *)
+
+(* the discipline before 98267e1 (history: C03_comprehension_iterable_refuted) *)
+Definition before_98267e1 : switches :=
+  {| sw_restore := true; sw_balanced := true; sw_killnest := true; sw_readmaybe := false; sw_loopall := false;
+     sw_globalargs := true; sw_loopprew := false; sw_compiter := false |}.
 
 Definition sw_or (a b : switches) : switches :=
   {| sw_restore := sw_restore a || sw_restore b; sw_balanced := sw_balanced a || sw_balanced b;
      sw_killnest := sw_killnest a || sw_killnest b; sw_readmaybe := sw_readmaybe a || sw_readmaybe b;
      sw_loopall := sw_loopall a || sw_loopall b; sw_globalargs := sw_globalargs a || sw_globalargs b;
-     sw_loopprew := sw_loopprew a || sw_loopprew b |}.
+     sw_loopprew := sw_loopprew a || sw_loopprew b; sw_compiter := sw_compiter a || sw_compiter b |}.
